@@ -93,7 +93,9 @@ Record F1facts (fb : flat) : Prop := {
   f1_constraints : forall c, In c (fl_constraints fb) -> constraint_f1 fb c = true;
   f1_has_consistency : In FConsistency (fl_constraints fb);
   f1_has_cross : In FCross (fl_constraints fb) \/ fl_crossings fb = [];
-  f1_derivations : derivations_match fb = true
+  f1_derivations : derivations_match fb = true;
+  f1_exclude_backed : forall p, In p (fl_exclude fb) -> In (FExclude (fst p) (snd p)) (fl_constraints fb);
+  f1_no_excluded_derived : fl_excluded_derived fb = []
 }.
 
 Lemma nth_error_combine_seq {A} : forall (l : list A) s f x,
@@ -108,7 +110,7 @@ Lemma in_f1_facts : forall fb, in_f1 fb = true -> F1facts fb.
 Proof.
   intros fb H. unfold in_f1 in H.
   repeat rewrite andb_true_iff in H.
-  destruct H as [[[[[[[[[[[[H1 H2] H3] H4] H5] H6] H7] H8] H9] H10] H11] H12] H13].
+  destruct H as [[[[[[[[[[[[[[H1 H2] H3] H4] H5] H6] H7] H8] H9] H10] H11] H12] H13] H14] H15].
   assert (Hs : forall n, In n (fl_sustains fb) -> n = 1).
   { intros n Hn. rewrite forallb_forall in H4. apply Nat.eqb_eq. apply H4. exact Hn. }
   constructor.
@@ -131,6 +133,10 @@ Proof.
     + left. apply existsb_exists in H12. destruct H12 as [c [Hc Hk]]. destruct c; try discriminate. exact Hc.
     + right. destruct (fl_crossings fb); [reflexivity|discriminate].
   - exact H13.
+  - intros p Hp. unfold exclude_backed in H14. rewrite forallb_forall in H14. specialize (H14 p Hp).
+    apply existsb_exists in H14. destruct H14 as [c [Hc Hk]]. destruct c; try discriminate.
+    apply andb_true_iff in Hk. destruct Hk as [A B]. apply Nat.eqb_eq in A, B. subst. exact Hc.
+  - unfold no_excluded_derived in H15. destruct (fl_excluded_derived fb); [reflexivity|discriminate].
 Qed.
 
 (** * Facts that hold for every flat record *)
